@@ -180,6 +180,193 @@ def mon_c02(res):
     return fails
 
 
+def file_of_type(res, tpath):
+    """(file sexp, type name) for a '::'-joined item path"""
+    parts = tpath.split("::")
+    rel = "/".join(parts[:-1]) + ".rs"
+    return res.hfiles.get(rel), parts[-1]
+
+
+def methods_of(f, tname):
+    """{name: fn sexp} over all inherent impls of tname in file f"""
+    out = {}
+    if f is None or f[0] != "file":
+        return out
+    for it in f[2:]:
+        if isinstance(it, list) and it[0] == "impl" and it[2] == "notrait" and sx.show(it[3]) == "(self %s)" % tname:
+            for m in it[4:]:
+                if isinstance(m, list) and m[0] == "fn":
+                    out.setdefault(str(m[4]), m)
+    return out
+
+
+def struct_of(f, name):
+    if f is None or f[0] != "file":
+        return None
+    for it in f[2:]:
+        if isinstance(it, list) and it[0] in ("struct", "enum") and it[3] == name:
+            return it
+    return None
+
+
+def fn_parts(m):
+    d = {x[0]: x for x in m[5:] if isinstance(x, list)}
+    params = d.get("params", ["params"])[1:]
+    return dict(vis=m[2], quals=m[3], name=str(m[4]), params=params, ret=d.get("ret", ["ret"])[1:],
+                body=d.get("body", ["body"])[1:], attrs=m[1])
+
+
+def params_shape(params):
+    """['&self' | '&mut self' | arg name ...]"""
+    out = []
+    for p in params:
+        if p == "self":
+            out.append("&self")
+        elif p == "mutself":
+            out.append("&mut self")
+        elif isinstance(p, list) and p[0] == "arg":
+            out.append(sx.show(p[1][1]) if len(p[1]) == 2 else sx.show(p[1]))
+        else:
+            out.append(sx.show(p))
+    return out
+
+
+import re as _re
+
+
+def check_wrapper_against(desc, m, clause, tpath, fails, body_kind):
+    """desc: generator's function descriptor; m: emitted fn sexp"""
+    fp = fn_parts(m)
+    where = "%s::%s" % (tpath, desc["name"])
+    want = ([desc["selfkind"]] if desc["selfkind"] else []) + [a for a, _ in desc["args"]]
+    if params_shape(fp["params"]) != want:
+        fails.append(dict(clause=clause + ".params", detail="%s: emitted %s, declared %s" % (where, params_shape(fp["params"]), want)))
+    if bool(fp["ret"]) != bool(desc["ret"]):
+        fails.append(dict(clause=clause + ".ret", detail="%s: return type %s, declared %s" % (where, sx.show(fp["ret"]), desc["ret"])))
+    if (fp["vis"] == "pub") != desc["pub"]:
+        fails.append(dict(clause=clause + ".vis", detail=where))
+    body = " ".join(sx.show(x) for x in fp["body"])
+    call_want = []
+    if desc["selfkind"] == "&self":
+        call_want.append("self as * const Self as _")
+    elif desc["selfkind"] == "&mut self":
+        call_want.append("self as * mut Self as _")
+    call_want += [a for a, _ in desc["args"]]
+    if body_kind == "address":
+        mm = _re.search(r"transmute \(paren \(i (\d+) -\) as usize\) ; f \(paren ?(.*)\)$", body)
+        if not mm:
+            fails.append(dict(clause=clause + ".body_shape", detail="%s: %s" % (where, body[:300])))
+            return
+        if int(mm.group(1)) != desc["address"]:
+            fails.append(dict(clause=clause + ".address", detail="%s: calls %s, declared %s" % (where, mm.group(1), desc["address"])))
+        if mm.group(2).strip() != " , ".join(call_want):
+            fails.append(dict(clause=clause + ".call_args", detail="%s: passes (%s), declared (%s)" % (where, mm.group(2), " , ".join(call_want))))
+        if body.count("transmute") != 1 or body.count("f (paren") != 1:
+            fails.append(dict(clause=clause + ".single_call", detail=where))
+        abi = _re.search(r'unsafe extern \(s "([^"]*)"\) fn \(paren ?(.*?)\)(?: - >| =)', body)
+        if not abi or abi.group(1) != desc["cc"]:
+            fails.append(dict(clause="C16.wrapper_abi", detail="%s: %s, expected %s" % (where, abi.group(1) if abi else None, desc["cc"])))
+        lam_want = []
+        if desc["selfkind"] == "&self":
+            lam_want.append("this : * const Self")
+        elif desc["selfkind"] == "&mut self":
+            lam_want.append("this : * mut Self")
+        if abi:
+            lam = [x.strip() for x in _split_top(abi.group(2))]
+            names = [x.split(" : ")[0] + (" : " + x.split(" : ", 1)[1] if x.startswith("this") else "") for x in lam if x]
+            want_names = lam_want + [a for a, _ in desc["args"]]
+            if names != want_names:
+                fails.append(dict(clause=clause + ".lambda", detail="%s: fn pointer takes %s, declared %s" % (where, names, want_names)))
+    elif body_kind == "vftable":
+        mm = _re.search(r"^let f = std : : ptr : : addr_of ! \(paren \(paren \* self \. vftable \(paren\)\) \. (\w+)\) \. read \(paren\) ; f \(paren ?(.*)\)$", body)
+        if not mm:
+            fails.append(dict(clause=clause + ".body_shape", detail="%s: %s" % (where, body[:300])))
+            return
+        if mm.group(1) != desc["name"]:
+            fails.append(dict(clause=clause + ".slot_name", detail="%s reads slot %s" % (where, mm.group(1))))
+        if mm.group(2).strip() != " , ".join(call_want):
+            fails.append(dict(clause=clause + ".call_args", detail="%s: passes (%s), declared (%s)" % (where, mm.group(2), " , ".join(call_want))))
+
+
+def _split_top(s):
+    """split a token string on top-level ' , ' (parentheses nest)"""
+    out, depth, cur = [], 0, []
+    for tok in s.split(" "):
+        if tok.startswith("("):
+            depth += tok.count("(")
+        if tok.endswith(")"):
+            depth -= tok.count(")")
+        if tok == "," and depth == 0:
+            out.append(" ".join(cur))
+            cur = []
+        else:
+            cur.append(tok)
+    out.append(" ".join(cur))
+    return out
+
+
+def mon_c05(res):
+    fails = []
+    exp = res.case.get("exp")
+    if res.hv[0] != "ok" or not exp:
+        return fails
+    for tpath, t in exp["types"].items():
+        f, tname = file_of_type(res, tpath)
+        ms = methods_of(f, tname)
+        for d in t["impls"]:
+            if d["name"].startswith("_"):
+                continue
+            m = ms.get(d["name"])
+            if m is None:
+                fails.append(dict(clause="C05.method_missing", detail="%s::%s" % (tpath, d["name"])))
+                continue
+            check_wrapper_against(d, m, "C05", tpath, fails, "address")
+    return [x for x in fails if x["clause"].startswith("C05")]
+
+
+def vftable_fields(res, tpath):
+    """[(name, vis, type token string)] of the emitted <T>Vftable struct, or None"""
+    f, tname = file_of_type(res, tpath)
+    st = struct_of(f, tname + "Vftable")
+    if st is None:
+        return None
+    return [(str(x[3]), x[2], " ".join(sx.show(y) for y in x[4][1:])) for x in st[4:] if isinstance(x, list) and x[0] == "field"]
+
+
+def mon_c16(res):
+    fails = []
+    exp = res.case.get("exp")
+    if res.hv[0] != "ok" or not exp:
+        return fails
+    vf_desc = res.case.get("vf_desc") or {}
+    for tpath, t in exp["types"].items():
+        f, tname = file_of_type(res, tpath)
+        ms = methods_of(f, tname)
+        for d in t["impls"]:
+            m = ms.get(d["name"])
+            if m is not None:
+                tmp = []
+                check_wrapper_against(d, m, "C05", tpath, tmp, "address")
+                fails.extend(x for x in tmp if x["clause"].startswith("C16"))
+        if t.get("declared_vft"):
+            fields = vftable_fields(res, tpath)
+            if fields is None:
+                fails.append(dict(clause="C16.vftable_struct_missing", detail=tpath))
+                continue
+            descs = t.get("slot_descs") or []
+            for k, (name, vis, ty) in enumerate(fields):
+                abi = _re.match(r'unsafe extern \(s "([^"]*)"\) fn', ty)
+                want = None
+                if k < len(descs) and descs[k] is not None:
+                    want = descs[k]["cc"]
+                elif name.startswith("_vfunc_"):
+                    want = "thiscall"
+                if want is not None and (not abi or abi.group(1) != want):
+                    fails.append(dict(clause="C16.slot_abi", detail="%s slot %d (%s): %s, expected %s"
+                                      % (tpath, k, name, abi.group(1) if abi else ty[:60], want)))
+    return fails
+
+
 # ------------------------------------------------------------------------------------------------
 # property table
 
@@ -212,6 +399,44 @@ PROPS = {
     ),
 }
 
+
+FUNC_PROFILE = dict(p_impl=0.9, impl_fns=(1, 4), args=(0, 6), p_cc=0.45, p_ret=0.6, p_vftable=0.45, vfuncs=(0, 5),
+                    p_base=0.35, fields=(0, 3), enums=(0, 1), externs=(0, 1), extern_values=(0, 0), p_backend=0.0,
+                    types=(1, 4), p_addr=0.2, p_gap=0.1)
+
+PROPS["C05"] = dict(
+    profile=FUNC_PROFILE, n=(400, 6000), corpus=["common", "C05"],
+    aspects=["verdict", "methods", "fn_sig", "body_addr", "items"],
+    monitors=[mon_c05],
+    nontrivial=lambda res: res.hv[0] == "ok" and res.case.get("exp") and any(t["impls"] for t in res.case["exp"]["types"].values()),
+    rule="gen.py with the FUNC profile: impl blocks with 1..4 functions, 0..6 integer/pointer/user-typed arguments, with and "
+         "without receiver and return type, addresses in decimal/hex/binary/octal/underscore spellings incl. 0, 2^31, 2^32-1; "
+         "non-trivial = accepted with >= 1 impl function",
+    level_text="Proved in Coq for every registry, scope and function (Properties/C05.v): an accepted impl function becomes a record with "
+               "the declared name, visibility, arguments in order with their resolved types, the declared return type (never dropped), body "
+               "'call absolute address A' with A the written #[address]; no address / unresolvable parameter / unresolvable return type are rejected; "
+               "the impl loop keeps every function in order. The back end prints that record verbatim; the printed wrapper is compared token for token "
+               "(signature, fn-pointer type, address by value, call arguments) with the real output, and the monitor re-derives address, argument order "
+               "and single-call shape from the implementation's file against the description.",
+    level_note="Trusted: Coq kernel; model validated by this run's correspondence; the meaning of the emitted body shape "
+               "(one call through a transmuted fn pointer) is RustExec.v's definition (spec side, by inspection of a 3-line template), not rustc's.",
+)
+PROPS["C16"] = dict(
+    profile=dict(FUNC_PROFILE, p_cc=0.6, p_vftable=0.7, p_base=0.5), n=(400, 6000), corpus=["common", "C16"],
+    aspects=["verdict", "field_types", "body_addr", "fn_sig", "methods"],
+    monitors=[mon_c16],
+    nontrivial=lambda res: res.hv[0] == "ok" and res.case.get("exp") and any(
+        t["impls"] or t.get("declared_vft") for t in res.case["exp"]["types"].values()),
+    rule="gen.py FUNC profile weighted towards calling_convention attributes (all seven names), with and without receiver, "
+         "in impl and vftable blocks, through inheritance chains; near-miss stream contains unknown convention names; "
+         "non-trivial = accepted with an impl function or a declared vftable",
+    level_text="Proved in Coq (Properties/C16.v): every accepted function (impl or virtual) carries cc_spec = the named convention, else thiscall with "
+               "a receiver, else system; unknown names are rejected; exactly the seven names are supported; the slot's fn-pointer type carries the "
+               "function's convention; placeholders are thiscall. Correspondence compares all fn-pointer types (vftable fields) and wrapper bodies; "
+               "the monitor recomputes the expected convention from the description for wrappers, slots and placeholders.",
+    level_note="Trusted: Coq kernel; model validated by this run's correspondence; equality of a function's convention across derived tables follows from C06's "
+               "prefix equality (proved there).",
+)
 
 NOT_YET = {}
 
